@@ -112,6 +112,9 @@ def install(I):
     # ---- dates -----------------------------------------------------------------
     install_dates(I, cls)
 
+    from . import nparr
+    nparr.install(I)
+
     # ---- copy ------------------------------------------------------------------
     from . import heapcopy
     ext["copy"] = {"copy": Builtin("copy.copy", lambda ctx, v: heapcopy.shallow(I, ctx, v)),
